@@ -82,6 +82,15 @@ def programs():
     P['2x2-z-window9'] = dict(z='permessage-deflate; client_max_window_bits=9',
                               threads=[[['send_binary', b'T0-0 ' + bytes(range(256)) * 3], ['send_binary', b'T0-1 ' + bytes(range(256)) * 3]],
                                        [['send_binary', b'T1-0 ' + bytes(range(256)) * 3], ['send_text', 'T1-1 uuuuuuuu']]])
+    # a frame of several MiB (any chunking of the socket write must stay under one lock acquisition)
+    P['huge-frame||text||ping'] = dict(z=None, threads=[[['send_binary', b'T0-0 ' + bytes(range(256)) * 12300]],
+                                                      [['send_text', 'T1-0']], [['send_ping', b'T2-0']]])
+    # the server has server_no_context_takeover: the loop thread resets its inflater after every message it receives,
+    # while another thread is between compress() and flush() of its own message
+    P['loop-server-ztext-snct+sender-z'] = dict(z='permessage-deflate; server_no_context_takeover', loop='server-ztext', loop_n=2,
+                                               threads=[[['send_text', 'T1-0 ' + 'snct snct snct snct ' * 9], ['send_binary', b'T1-1 ' + b'snct snct ' * 20]]])
+    P['loop-server-zbfinal+sender-z'] = dict(z='permessage-deflate', loop='server-zbfinal', loop_n=2,
+                                             threads=[[['send_text', 'T1-0 ' + 'bfinal bfinal bfinal ' * 9]]])
     # persist()-style use: the loop thread sees the connection end and connects again (same WebSocket object) while
     # another thread is in the middle of a send / close.  Connection 1 negotiated permessage-deflate, connection 2
     # does not: whatever a call that began on connection 1 does, it must not put anything on connection 2.
@@ -127,8 +136,11 @@ def _execute(prog, plan=None, rnd=None, switch_prob=0.0, files=None, pct=None):
     elif loop == 'server-close-empty':
         steps = [('at', 1.0), ('raw', F(8, b'')), ('await_close',), ('eof',)]
     elif loop == 'server-ztext':
-        _zp = deflate_peer.Peer()
+        _zp = deflate_peer.Peer(15, 15, 'server_no_context_takeover' in (z or ''), False)
         steps = [('at', 1.0), ('raw', F(1, _zp.compress(b'server says hello hello hello'), rsv=4) + F(1, _zp.compress(b'and again hello'), rsv=4))]
+    elif loop == 'server-zbfinal':
+        _zp = deflate_peer.Peer()
+        steps = [('at', 1.0), ('raw', F(1, _zp.compress(b'server says hello hello hello', 'bfinal'), rsv=4) + F(1, _zp.compress(b'and again hello', 'bfinal'), rsv=4))]
     elif loop == 'server-close-reply':
         steps = [('at', 1.0), ('raw', F(8, refws.close_payload(1000, 'reply')))]
     elif loop == 'server-ping-close':
@@ -297,7 +309,7 @@ def judge_c11(prog, out):
     lib = []
     if prog.get('loop') == 'server-ping' and 'ping' in out.loop_events:
         lib.append((10, b'srv-ping'))
-    if prog.get('loop') == 'server-ztext':
+    if prog.get('loop') in ('server-ztext', 'server-zbfinal'):
         # the loop must have delivered both server messages intact as well
         if out.loop_events[:2] != ['text', 'text']:
             detail['loop_events'] = out.loop_events
